@@ -544,6 +544,19 @@ class ExprMixin(object):
         if isinstance(dst, CountVec) and isinstance(src, CountVec):
             self.assign(dst.size_lv(), src.size())
             return
+        if isinstance(dst, PtrSlot) and isinstance(src, CondPtr):
+            def parts(p):
+                if isinstance(p, PtrSlot):
+                    return p.null(), p.tag(), p.target
+                tagv = getattr(p.target, 'identity_tag', None)
+                return p.null, (E.const(tagv) if tagv is not None else E.const(-1)), p.target
+            na, ta, oa = parts(src.a)
+            nb, tb, ob = parts(src.b)
+            self.assign(dst.null_lv(), ite(src.c, na, nb))
+            self.assign(dst.tag_lv(), ite(src.c, ta, tb))
+            if oa is ob:
+                dst.target = oa
+            return
         if isinstance(dst, PtrSlot):
             if isinstance(src, Obj):
                 # `this` (or the address of a known object) stored in a pointer member
@@ -623,6 +636,9 @@ class ExprMixin(object):
                 return base.vat(idx)
         if isinstance(base, VecList):
             return base.at(idx)
+        if isinstance(base, CountVec):
+            self.bounds(idx, base.size(), base.name, n)
+            return StrTmp(False)
         fail(n, 'subscript of %s' % type(base).__name__)
 
     # ---------------------------------------------------------------------------------------------- casts
